@@ -3,14 +3,20 @@ NOTES = ("All checks are driven by /verif/check (python3, stdlib). Specification
          "/verif/harness (binary gv) and the goml CLI are rebuilt from /repo's working tree on every run with --cfg goml_verif. "
          "Exit 0 = held (KNOWN-FINDING lines for defects listed in known_findings.json), 1 = VIOLATION, 2 = tool error.")
 ENGINES = [
-    {"name": "tlc", "path": "/verif/spec", "serves_properties": ["C01", "C02", "C05", "C06", "C09", "C13", "C15"],
+    {"name": "tlc", "path": "/verif/spec", "serves_properties": ["C01", "C02", "C05", "C06", "C09", "C10", "C13", "C15"],
      "kind_free_text": "TLA+ specifications model-checked / simulated by TLC 1.8"},
-    {"name": "gv", "path": "/verif/harness", "serves_properties": ["C01", "C02", "C05", "C06", "C09", "C13", "C15"],
+    {"name": "gv", "path": "/verif/harness", "serves_properties": ["C01", "C02", "C05", "C06", "C09", "C10", "C13", "C15"],
      "kind_free_text": "Rust conformance harness with path dependencies on /repo/crates/*, and the goml CLI built from /repo"},
 ]
 PENDING = "check not built yet in this round (planned in DESIGN.md §4); not a claim that the technique cannot apply"
 NOT_APPLICABLE = {p: PENDING for p in ["C%02d" % i for i in range(1, 21)]}
 CHECKS = {
+    "C10": {
+        "level": "model_checking",
+        "technique": "IntN.tla (exact N-bit arithmetic) checked by TLC against reference vectors and exhaustively for 8 bits; literal/operator/boundary templates run through GomlSem.tla and, compiled, through GoSem.tla",
+        "text": "IntN.tla defines wrap-around, truncated division, comparison and decimal rendering on exact integers beyond TLC's 32 bits and is self-checked (reference vectors, all 8-bit pairs). Every literal spelling (min-1, min, -1, 0, 1, max, max+1, leading zeros; suffixed/annotated/inferred) at each of the 8 integer types, every arithmetic/comparison operator and negation on boundary operands (through functions and directly on literals), division by zero, mixed widths and dyadic float arithmetic/printing are compiled; accept/reject verdicts and printed values must equal GomlSem's; emitted Go must be valid (GoStatic incl. constant-overflow and constant zero-divisor rules).",
+        "note": "Floats only on exactly representable dyadic values (no IEEE rounding in TLA+); boundary operands, not all pairs, for 16/32/64 bits.",
+    },
     "C06": {
         "level": "model_checking",
         "technique": "MatchSem.tla (Matches/Binds/FirstMatch + matrix generator) checked and simulated by TLC; every generated matrix compiled by the real pipeline and its decision tree executed by GoSem.tla against FirstMatch's prediction for every scrutinee value",
